@@ -84,14 +84,29 @@ def build_component(comp, workdir):
         text, meta = cxx2c.extract(src_tu, [os.path.join(REPO, 'include'), REPO], DEFS, comp.symbolic, extra)
     except cxx2c.ExtractError as ex:
         raise Infra('extraction of %s failed: %s' % (comp.source, ex))
-    text, tagmap, missing, missing_l = specmod.splice(text, comp)
+    raw_text = text
+    dropped = []
+    cfile = os.path.join(workdir, comp.name + '.c')
+    for _attempt in range(6):
+        text, tagmap, missing, missing_l = specmod.splice(raw_text, comp, dropped)
+        open(cfile, 'w').write(text)
+        # does the annotated text still compile?  A contract that names something that no longer exists (a removed
+        # parameter, a renamed local in a loop invariant) must not take the other contracts of the component down with it
+        probe = os.path.join(workdir, comp.name + '_probe.c')
+        open(probe, 'w').write('#include "%s"\n' % cfile)
+        rc, out, err, dt = sh('goto-cc %s -I%s/stubs -c %s -o %s.gb' % (' '.join('-D' + d for d in comp.defines), ROOT, probe, probe), 120)
+        if rc == 0:
+            break
+        bad = [f for f in re.findall(r"In function '(\w+)':", err + out) if (f in comp.functions or any(k[0] == f for k in comp.loops)) and f not in dropped]
+        if not bad:
+            break   # not attributable to one contract: the groups report the compiler message
+        dropped.append(bad[0])
+    meta['dropped_contracts'] = list(dropped)
     meta['missing_contracts'] = []
     if missing or missing_l:
         # a contract whose function/loop no longer exists is undecided (exit 2), never a verdict; the remaining
         # contracts are still checked so that a violation elsewhere is reported
         meta['missing_contracts'] = sorted(set(missing) | set('%s#loop%d' % k for k in missing_l))
-    cfile = os.path.join(workdir, comp.name + '.c')
-    open(cfile, 'w').write(text)
     meta['tagmap'] = tagmap
     meta['cfile'] = cfile
     meta['extract_s'] = time.time() - t0
@@ -183,6 +198,8 @@ def run_group(comp, g, meta, workdir, tier, backend=None, secondary=False):
     base = os.path.join(workdir, hname)
     defs = ' '.join('-D' + d for d in comp.defines)
     tmo = g.timeout or (300 if tier == 'quick' else 1800)
+    if meta.get('missing_contracts') or meta.get('dropped_contracts'):
+        tmo = min(tmo, 120)   # some loop has probably lost its contract: do not wait long before the bounded fall-back
     if secondary:
         tmo = min(tmo, 300)   # the cross-check is advisory: a timeout there is reported, not waited for
     rc, out, err, dt = sh('goto-cc %s -I%s/stubs --function %s %s -o %s.a.gb' % (defs, ROOT, hname, hpath, base), 120)
@@ -192,6 +209,9 @@ def run_group(comp, g, meta, workdir, tier, backend=None, secondary=False):
     gi = ['goto-instrument', '--dfcc', hname]
     gone = set(meta.get('missing_contracts', []))
     if g.enforce:
+        if g.enforce in meta.get('dropped_contracts', []):
+            res['infra'] = 'the contract of %s no longer compiles against the current code (signature or locals changed?)' % g.enforce
+            return res
         if g.enforce in gone or g.enforce not in meta['sigs']:
             res['infra'] = 'enforced function %s is no longer extracted (renamed or removed?)' % g.enforce
             return res
@@ -221,6 +241,34 @@ def run_group(comp, g, meta, workdir, tier, backend=None, secondary=False):
     res['solver_s'] = dt
     if rc == 124:
         res['infra'] = 'solver timeout after %ds (back end %s)' % (tmo, res['backend'])
+        if (meta.get('missing_contracts') or meta.get('dropped_contracts')) and not secondary and not g.unwind:
+            # A contract of this component no longer fits the code, so some loop is probably left without a contract.
+            # Bounded fall-back (labelled as such, never a proof): unwind every such loop 3 times, paths beyond are cut.
+            # A tagged obligation that fails inside the bound fails on a real path of the extracted code and is reported;
+            # if none fails the group stays undecided.
+            rc2, out2, err2, dt2 = sh('cbmc %s --unwind 3 %s.b.gb' % (' '.join(flags), base), 240)
+            res['solver_s'] += dt2
+            try:
+                result2 = [m['result'] for m in json.loads(out2) if 'result' in m][0]
+            except Exception:
+                result2 = None
+            if result2 is not None:
+                res['infra'] += '; bounded fall-back (unwind 3, no unwinding assertions): '
+                fails = []
+                for r in result2:
+                    desc = r.get('description', '')
+                    tags = re.findall(r'\[([^\]]+)\]', re.match(r'^((?:\[[^\]]+\])*)', desc).group(1))
+                    loc = r.get('sourceLocation', {})
+                    if not tags and os.path.basename(loc.get('file', '')) == os.path.basename(meta['cfile']) and loc.get('line'):
+                        tags = meta['tagmap'].get(int(loc['line']), [])
+                    if r.get('status') == 'FAILURE' and any(re.match(r'^C\d\d$', t) for t in tags):
+                        ob = {'name': r.get('property'), 'description': desc, 'status': 'FAILURE', 'tags': tags, 'function': loc.get('function'),
+                              'line': loc.get('line'), 'file': os.path.basename(loc.get('file', '')), 'bounded_fallback': True}
+                        if 'trace' in r:
+                            ob['trace'] = compact_trace(r['trace'])
+                        fails.append(ob)
+                res['fallback_failures'] = fails
+                res['infra'] += ('%d tagged obligation(s) fail within the bound' % len(fails)) if fails else 'no tagged obligation fails within the bound'
         return res
     try:
         msgs = json.loads(out)
